@@ -51,7 +51,10 @@ def cases(rng, tier, feats, drv_ok):
         def mut(kind, pos, f):
             t = list(toks); t[pos] = f(t[pos])
             if t[pos] != toks[pos]:
-                out.append({'line': F.fri_line(d, c, t), 'kind': kind, 'expect': 'reject', 'cfg': cfg})
+                # `points` are the domain points the VERIFIER computes itself (queries_to_points); they are not one of the
+                # positions the property lists, and fri_verify ignores the point of a query whose coset holds a later query
+                # (the last query of a coset sets coset_x_inv): compared with the model only.
+                out.append({'line': F.fri_line(d, c, t), 'kind': kind, 'expect': 'any' if kind == 'point+1' else 'reject', 'cfg': cfg})
         def each(kind, pos, bump=lambda x: (x + 1) % P):
             xs = F.parse_list(toks[pos])
             idx = range(len(xs)) if len(xs) <= 4 else sorted({rng.below(len(xs)) for _ in range(3)})
@@ -90,6 +93,8 @@ def nontrivial(c, co):
 def oracle(c, co):
     if c['expect'] == 'ok':
         return None if co[0] == 'ok' else {'key': 'honest-rejected', 'what': f"honest FRI instance rejected ({c['cfg']})"}
+    if c['expect'] == 'any':
+        return None
     if co[0] == 'ok':
         return {'key': 'accepts:' + c['kind'], 'what': f"FRI accepted a corrupted instance: {c['kind']} ({c['cfg']})"}
     return None
